@@ -10,6 +10,7 @@ import (
 	"context"
 	"fmt"
 	"io"
+	"net/http"
 	"strings"
 	"testing"
 
@@ -34,9 +35,12 @@ type ClientCall struct {
 }
 
 type ClientScript struct {
-	Prefix string       `json:"prefix"`
-	Nested bool         `json:"nested,omitempty"`
-	Calls  []ClientCall `json:"calls"`
+	Prefix string `json:"prefix"`
+	Nested bool   `json:"nested,omitempty"`
+	// Mux: the registry's handler sits behind net/http's ServeMux, which redirects unclean paths
+	// (//, /./, /../) to their clean form, as front ends commonly do
+	Mux   bool         `json:"mux,omitempty"`
+	Calls []ClientCall `json:"calls"`
 }
 
 func runClient(s ClientScript, v *vt.V) {
@@ -62,7 +66,13 @@ func runClient(s ClientScript, v *vt.V) {
 	kept = append(kept, "secret/new")
 	before := snapshotOutside(ctx, mem, kept, []digest.Digest{sd, id, digest.FromBytes(viaView)})
 
-	srv := memnet.NewServer(ociserver.New(mem, nil))
+	var handler http.Handler = ociserver.New(mem, nil)
+	if s.Mux {
+		mux := http.NewServeMux()
+		mux.Handle("/", handler)
+		handler = mux
+	}
+	srv := memnet.NewServer(handler)
 	defer srv.Close()
 	client, err := ociclient.New(srv.Host, &ociclient.Options{Insecure: true, Transport: srv.Transport()})
 	if err != nil {
@@ -157,14 +167,19 @@ func runClient(s ClientScript, v *vt.V) {
 				id := w.ID()
 				w.Close()
 				for _, target := range []string{"other/blah", "secret/new", p} {
-					id2 := strings.Replace(id, "/v2/"+p+"/x/", "/v2/"+target+"/", 1)
-					if id2 == id {
-						continue
-					}
-					if w2, err := view.PushBlobChunkedResume(ctx, "x", id2, 0, 0); err == nil {
-						w2.Write(viaView)
-						w2.Commit(digest.FromBytes(viaView))
-						w2.Close()
+					// the plain spelling of the rewritten path and spellings a path-cleaning front end maps to it
+					for _, lead := range []string{"/v2/", "//v2/", "/./v2/", "/x/../v2/", "/v2/./"} {
+						id2 := strings.Replace(id, "/v2/"+p+"/x/", lead+target+"/", 1)
+						if id2 == id {
+							continue
+						}
+						for _, offset := range []int64{0, -1} {
+							if w2, err := view.PushBlobChunkedResume(ctx, "x", id2, offset, 0); err == nil {
+								w2.Write(viaView)
+								w2.Commit(digest.FromBytes(viaView))
+								w2.Close()
+							}
+						}
 					}
 				}
 			}
@@ -205,9 +220,9 @@ func runClient(s ClientScript, v *vt.V) {
 var propClient = &vt.Prop[ClientScript]{
 	ID:   "C13",
 	Name: "SubOverClientConfinement",
-	Rule: "the view is laid over an ociclient talking (in-memory HTTP) to an ociserver over ocimem; the backend holds siblings outside the prefix (other, other/blah, <prefix>ey/x, <prefix> itself, the prefix's first element, zz) with a secret blob and a tagged manifest, and one repository inside; 1-6 calls (reads, deletes, pushes, mounts in both directions, chunked uploads, tag listings, and resuming an upload id obtained through the view after rewriting it to name a repository outside) use names that contain URL syntax ('?', '#', '&', '=', percent escapes, injected query parameters such as mount= and from=, fragments that cut the path short) besides dot segments and well-formed names; oracle = the view's repository listing, run twice (sometimes after a run that stopped at the first item), is each time the backend's restricted to the prefix; no read returns the outside content, the outside content never becomes readable inside the view, and everything outside the prefix is unchanged afterwards; non-trivial = some name contains URL syntax; distinct = (prefix, calls)",
+	Rule: "the view is laid over an ociclient talking (in-memory HTTP) to an ociserver over ocimem; the backend holds siblings outside the prefix (other, other/blah, <prefix>ey/x, <prefix> itself, the prefix's first element, zz) with a secret blob and a tagged manifest, and one repository inside; 1-6 calls (reads, deletes, pushes, mounts in both directions, chunked uploads, tag listings, and resuming - at offset 0 and at -1 - an upload id obtained through the view after rewriting it to name a repository outside, spelled plainly or with //, /./, /../ segments; half of the servers sit behind a path-cleaning ServeMux) use names that contain URL syntax ('?', '#', '&', '=', percent escapes, injected query parameters such as mount= and from=, fragments that cut the path short) besides dot segments and well-formed names; oracle = the view's repository listing, run twice (sometimes after a run that stopped at the first item), is each time the backend's restricted to the prefix; no read returns the outside content, the outside content never becomes readable inside the view, and everything outside the prefix is unchanged afterwards; non-trivial = some name contains URL syntax; distinct = (prefix, calls)",
 	Gen: func(t *rapid.T) ClientScript {
-		s := ClientScript{Prefix: rapid.SampledFrom([]string{"p", "foo", "foo/bar"}).Draw(t, "prefix"), Nested: rapid.IntRange(0, 3).Draw(t, "nested") == 0}
+		s := ClientScript{Prefix: rapid.SampledFrom([]string{"p", "foo", "foo/bar"}).Draw(t, "prefix"), Nested: rapid.IntRange(0, 3).Draw(t, "nested") == 0, Mux: rapid.Bool().Draw(t, "mux")}
 		sd := digest.FromBytes([]byte("content that exists only outside the prefix")).String()
 		name := func(label string) string {
 			pool := []string{"x", "y", "../other", "x/../../other",
